@@ -89,17 +89,18 @@ def run(ctx):
     rng = random.Random(ctx.seed)
     traces, meta = [], []
     n = 160 if quick else 3000
-    for i in range(n):
-        impl = "plan_mutator" if i % 2 == 0 else "msg_mutator"
-        with G.quiet_gc():
+    del hists
+    with G.quiet_gc():
+        for i in range(n):
+            impl = "plan_mutator" if i % 2 == 0 else "msg_mutator"
             t, src, bare = G.program_trace(rng, impl, size=rng.randint(4, 14 if quick else 20))
-        traces.append(t)
-        meta.append(src)
-        ctx.case(G.digest((impl, src, [(e["op"], e["a"]) for e in t["ev"] if e["k"] == "call"])))
-        if G.outs_of(t["ev"]) != G.outs_of(bare):
-            ctx.violation(f"bare-diff:{impl}:program:{'|'.join(o[0] for o in G.outs_of(t['ev']))[:80]}",
-                          f"{impl}(program) answers {G.outs_of(t['ev'])}, the bare program {G.outs_of(bare)}",
-                          {"program": src, "trace": t["ev"], "bare": bare})
+            traces.append(t)
+            meta.append(src)
+            ctx.case(G.digest((impl, src, [(e["op"], e["a"]) for e in t["ev"] if e["k"] == "call"])))
+            if G.outs_of(t["ev"]) != G.outs_of(bare):
+                ctx.violation(f"bare-diff:{impl}:program:{'|'.join(o[0] for o in G.outs_of(t['ev']))[:80]}",
+                              f"{impl}(program) answers {G.outs_of(t['ev'])}, the bare program {G.outs_of(bare)}",
+                              {"program": src, "trace": t["ev"], "bare": bare})
     report_traces(ctx, traces, meta, "C20t")
     ctx.assumptions += [
         "the driver starts the generator with send(None) (Python rejects anything else), throws Exception subclasses only "
